@@ -16,6 +16,7 @@ What is decided here:
   * the loop terminates: (duration - last accepted time, max_trials - trial) decreases lexicographically (C16).
 """
 import types
+from wntr.utils.ordered_set import OrderedSet
 
 import z3
 
@@ -81,6 +82,20 @@ class Wn(NativeModel):
             time=types.SimpleNamespace(duration=duration, rule_timestep=rts, hydraulic_timestep=option_hyd_step, report_timestep=None,
                                        pattern_timestep=None, pattern_start=0, start_clocktime=0),
             hydraulic=types.SimpleNamespace(trials=max_trials, demand_model="DD"))
+
+    def _generic(self, what):
+        """one arbitrary junction / link of the network: symbolic name, symbolic stored isolation flag"""
+        cache = self.__dict__.setdefault("_generic_cache", {})
+        if what not in cache:
+            p = self.ghost.path
+            cache[what] = (p.fresh(what + "_name", "name"), types.SimpleNamespace(_is_isolated=p.fresh(what + "_is_isolated", "bool")))
+        return cache[what]
+
+    def junctions(self):
+        return GenericIter([self._generic("junction")])
+
+    def links(self):
+        return GenericIter([self._generic("link")])
 
     def valves(self):
         return GenericIter([])
@@ -226,7 +241,25 @@ def _models(cfg):
             g.post_ran = "postsolve"
             return None
         reg(W._run_postsolve_controls, post)
-        reg(W._get_isolated_junctions_and_links, lambda i, a, k: (0, 0))
+        def get_isolated(interp, args, kw):
+            # requires (entry of every call): the simulator's previously-isolated sets are exactly the elements whose stored
+            # _is_isolated flag is set - the hydraulic model was built / last updated from those flags, and only the members of
+            # these sets get their flag cleared and their model rows restored.  Checked for an arbitrary junction and link.
+            sim = args[0]
+            wn = sim.fields["_wn"]
+            g = wn.ghost
+            if not g.__dict__.get("iso_checked"):
+                g.iso_checked = True
+                for what, fld in (("junction", "_prev_isolated_junctions"), ("link", "_prev_isolated_links")):
+                    nm, el = wn._generic(what)
+                    prev = sim.fields[fld]
+                    data = prev.fields["_data"] if hasattr(prev, "fields") else prev    # OrderedSet keeps its members as dict keys
+                    member = any(x is nm for x in list(data))
+                    g.ob("previously_isolated_%ss_are_exactly_the_flagged_ones_when_a_run_starts" % what,
+                         tb(el._is_isolated) == z3.BoolVal(member))
+            return (0, 0)
+        reg(W._get_isolated_junctions_and_links, get_isolated,
+            verified_by="wntr.sim.core:WNTRSimulator._get_isolated_junctions_and_links (contracts/c09_isolation.py)")
         for f in (hyd.update_tank_heads, hyd.update_model_for_controls, mparam.source_head_param, mparam.expected_demand_param):
             reg(f, lambda i, a, k: None)
 
@@ -370,7 +403,8 @@ def _case(start, report, conv_err, backup, hyd_mode):
         res = Results(g)
         cfg["results"][0] = res
         sim = cx.obj(WNTRSimulator, _wn=wn, _rule_iter=cx.int("stale_rule_iter"), _change_tracker=Tracker(g), _model=None,
-                     _model_updater=None, _solver=None, _backup_solver=None, _valve_source_checker=None, mode=None)
+                     _model_updater=None, _solver=None, _backup_solver=None, _valve_source_checker=None, mode=None,
+                     _prev_isolated_junctions=OrderedSet(), _prev_isolated_links=OrderedSet())    # as __init__ leaves them
         cfg["sim"][0] = sim
         cx.allow_raise(RuntimeError, conv_err)
         cx.target(WNTRSimulator.run_sim, sim, NewtonSolver, ("backup" if backup else None), None, None, conv_err)
